@@ -227,6 +227,20 @@ def run(ctx: Ctx):
     ctx.floor("VRP scorer methods", len(seen_m), 5)
     foreign = sorted(set(reads) - PRIMARY)
     ctx.ob("C18-O4", "R7 EVALUATOR-EXCLUSIVE", reads[foreign[0]][0] if foreign else vo, "the terms of the objective are computed from routes, arrival times, unassigned set and problem data only", not foreign, f"reads self.{foreign[0]}: operators that do not maintain it (random/worst/related removal, greedy/regret insertion) leave it stale, and the score is then not the documented sum of the state" if foreign else "", node=reads[foreign[0]][1] if foreign else vo.node)
+    SCORERS = {
+        "route_distance": ["total = self.dist(0, route[0])", "for i in range(len(route) - 1):\n        total += self.dist(route[i], route[i + 1])", "total += self.dist(route[-1], 0)", "if not route:\n        return 0.0"],
+        "total_distance": ["return sum((self.route_distance(v) for v in range(len(self.vehicles))))"],
+        "route_load": ["return sum((self.customers[c].demand for c in self.routes[v]))"],
+        "vehicles_used": ["return sum((1 for r in self.routes if r))"],
+        "capacity_violation": ["load = self.route_load(v)", "if load > vehicle.capacity:\n            violation += load - vehicle.capacity", "for v, vehicle in enumerate(self.vehicles):"],
+        "time_window_violation": ["arrival = self.arrival_times[v][i]", "if arrival > c.tw_end:\n                    violation += arrival - c.tw_end", "for v, route in enumerate(self.routes):"],
+        "sync_violation": ["if c.required_vehicles <= 1:\n            continue", "for v, route in enumerate(self.routes):", "if len(visiting_vehicles) < c.required_vehicles:\n            violation += (c.required_vehicles - len(visiting_vehicles)) * 1000.0", "violation += max(times) - min(times)"],
+        "compute_arrival_times": ["t = self.dist(0, route[0])", "t = max(t, c.tw_start)", "times.append(t)", "t += c.service_time", "if i < len(route) - 1:\n            t += self.dist(cid, route[i + 1])"],
+    }
+    for mname, frags in SCORERS.items():
+        mf = ctx.func("vrp", f"VRPState.{mname}")
+        tm = ast.unparse(mf.node)
+        ctx.ob("C18-O4", "R18 table", mf, f"VRPState.{mname} computes the documented quantity of the state (term by term)", all(fr in tm for fr in frags), "", node=mf.node)
     # solve_vrptw hands back what alns publishes: the best state with the objective of that state
     al = ctx.func("lns", "alns")
     a_sites = result_sites(al)
@@ -295,6 +309,11 @@ def _t_alns_hoisted_user_values(tree):
 def _v_machine_order_binding(tree):
     g = M.find_func(tree, "_rebuild_schedule")
     M.replace_stmt(g, lambda s: isinstance(s, ast.Expr) and M.src_is(s.value, "ready.append((j, op_idx))"), lambda s: M.stmts("pos = machine_order_map.get((j, op_idx), 0)\nif pos > 0 and machine_order[pos - 1][:2] not in scheduled:\n    continue") + [s])
+
+
+def _v_route_distance_no_return_leg(tree):
+    g = M.find_func(tree, "VRPState.route_distance")
+    M.replace_stmt(g, lambda s: isinstance(s, ast.AugAssign) and M.src_has(s.value, "route[-1], 0"), [])
 
 
 def _v_no_copy(tree):
@@ -370,6 +389,7 @@ VARIANTS = [
     M.Variant("alns early stop reports the current objective with the best state (seed C18-C)", "solvor/lns.py", _v_alns_reports_current, "C18-O4"),
     M.Variant("twin: alns hoists the user-sense values and publishes the best one", "solvor/lns.py", _t_alns_hoisted_user_values, None),
     M.Variant("rebuild makes the requested machine order binding (seed C18-E)", JS, _v_machine_order_binding, "C18-O1"),
+    M.Variant("route distance forgets the leg back to the depot", VR, _v_route_distance_no_return_leg, "C18-O4"),
     M.Variant("twin: reformat job_shop", JS, _t_reformat, None),
     M.Variant("twin: reformat vrp", VR, _t_reformat, None),
 ]
